@@ -309,6 +309,18 @@ impl<'e> Env<'e> {
             if rng.chance(1, 8) {
                 v = vec![1, 3, 5, 7];
                 v.resize(self.scn.spec.n, 0);
+            } else if rng.chance(1, 5) {
+                // the slot values of a sparse polynomial (a few non-zero coefficients with zeros in
+                // between and above): "all plaintexts" includes those whose polynomial has holes
+                let n = self.scn.spec.n;
+                let mut p = Plaintext::new();
+                p.resize(n);
+                for _ in 0..rng.range(1, 3) {
+                    let at = rng.usize_below(n);
+                    p.data_mut()[at] = 1 + rng.below(self.t - 1);
+                }
+                v = self.batch.as_ref().unwrap().decode_new(&p);
+                v.resize(n, 0);
             }
             Msg::Slots(v)
         }
